@@ -27,12 +27,18 @@ type sigInfo struct {
 	fn      *types.Func
 }
 
+// currentProp: the property being checked (set before loadGen; selects the lock files read while anchors are resolved).
+var currentProp string
+
 type missingAnchor struct {
 	fc  *FuncContract
 	why string
 }
 
 type Gen struct {
+	recordedFuncs   map[string]bool // named functions that existed, in the packages under contract, when the lock was written
+	recordedPkgs    map[string]bool
+	extractedMemo   map[*ssa.Function]bool
 	recordedLocals  map[string]map[string]string // function -> local name -> definition fingerprints recorded with the lock
 	smallHelperMemo map[*ssa.Function]bool
 	missing         []missingAnchor
@@ -68,6 +74,9 @@ func loadGen(repoDir string, patterns []string, extDir string) (*Gen, error) {
 	}
 	g := &Gen{byPath: map[string]*packages.Package{}, ssaPkgs: map[string]*ssa.Package{}, contracts: map[string]*FuncContract{}, ghosts: map[string]*GhostFunc{},
 		sigs: map[*FuncContract]*sigInfo{}, fnOf: map[*FuncContract]*ssa.Function{}, fnIDs: map[string]int{}, globIDs: map[string]int{}, repoDir: repoDir}
+	if currentProp != "" {
+		g.loadFuncs(currentProp)
+	}
 	var errs []string
 	packages.Visit(pkgs, nil, func(p *packages.Package) {
 		g.byPath[p.PkgPath] = p
@@ -482,8 +491,8 @@ func (g *Gen) resolveClosure(fc *FuncContract, p *packages.Package) error {
 		for _, part := range strings.Split(role[1:], "#") {
 			var n int
 			fmt.Sscanf(part, "%d", &n)
-			if n >= 1 && n <= len(cur.AnonFuncs) {
-				cur = cur.AnonFuncs[n-1]
+			if fl := g.funcLiterals(cur); n >= 1 && n <= len(fl) {
+				cur = fl[n-1]
 			} else {
 				okPath = false
 				break
@@ -549,6 +558,88 @@ func (g *Gen) resolveClosure(fc *FuncContract, p *packages.Package) error {
 	g.sigs[fc] = si
 	g.fnOf[fc] = target
 	return nil
+}
+
+// isNewFunc: a named function of a package under contract that did not exist when the lock was written.
+func (g *Gen) isNewFunc(f *ssa.Function) bool {
+	return f != nil && f.Pkg != nil && f.Parent() == nil && f.Synthetic == "" && len(g.recordedFuncs) > 0 &&
+		g.recordedPkgs[f.Pkg.Pkg.Path()] && !g.recordedFuncs[f.String()]
+}
+
+// funcLiterals: the function literals of fn in source order, as closure contracts number them ("#1", "#2", ...). A
+// literal that was lifted, as it is, into a new named function keeps its number: a new function that fn uses as a
+// value (or starts with go / defer) counts at the place where it is used.
+func (g *Gen) funcLiterals(fn *ssa.Function) []*ssa.Function {
+	type item struct {
+		f   *ssa.Function
+		pos token.Pos
+	}
+	var items []item
+	for _, a := range fn.AnonFuncs {
+		items = append(items, item{a, a.Pos()})
+	}
+	lifted := false
+	seen := map[*ssa.Function]bool{}
+	for _, b := range fn.Blocks {
+		for _, ins := range b.Instrs {
+			var refs []*ssa.Function
+			switch x := ins.(type) {
+			case *ssa.Go:
+				if f := x.Call.StaticCallee(); f != nil {
+					refs = append(refs, f)
+				}
+			case *ssa.Defer:
+				if f := x.Call.StaticCallee(); f != nil {
+					refs = append(refs, f)
+				}
+			}
+			var ops []*ssa.Value
+			for _, op := range ins.Operands(ops) {
+				if op == nil || *op == nil {
+					continue
+				}
+				if f, ok := (*op).(*ssa.Function); ok {
+					if ci, isCall := ins.(ssa.CallInstruction); isCall && ci.Common().Value == f {
+						continue // called, not used as a value
+					}
+					refs = append(refs, f)
+				}
+			}
+			for _, f := range refs {
+				if g.isNewFunc(f) && !seen[f] {
+					seen[f] = true
+					lifted = true
+					items = append(items, item{f, ins.Pos()})
+				}
+			}
+		}
+	}
+	if lifted {
+		sort.SliceStable(items, func(i, j int) bool { return items[i].pos < items[j].pos })
+	}
+	var out []*ssa.Function
+	for _, it := range items {
+		out = append(out, it.f)
+	}
+	return out
+}
+
+// litName: the structural name of a function literal ("outer$2$1"), by its number among the literals of its parent as
+// funcLiterals counts them; a literal lifted into a new named function keeps the name it had in ctx, where it is used.
+func (g *Gen) litName(f, ctx *ssa.Function) string {
+	parent := f.Parent()
+	if parent == nil {
+		if !g.isNewFunc(f) || ctx == nil {
+			return f.String()
+		}
+		parent = ctx
+	}
+	for i, l := range g.funcLiterals(parent) {
+		if l == f {
+			return fmt.Sprintf("%s$%d", g.litName(parent, nil), i+1)
+		}
+	}
+	return f.String()
 }
 
 func (g *Gen) sigOf(fc *FuncContract) *sigInfo { return g.sigs[fc] }
@@ -682,6 +773,42 @@ func (g *Gen) smallHelper(f *ssa.Function) bool {
 		g.smallHelperMemo = map[*ssa.Function]bool{}
 	}
 	g.smallHelperMemo[f] = ok
+	return ok
+}
+
+// extractedFn: a named function of a package under contract that did not exist when the lock was written and carries no
+// contract: code that was moved out of some function ("extract function"). It is executed symbolically at its call
+// sites, loops included, as part of the caller's text: the caller's loop invariants and site clauses apply inside it.
+func (g *Gen) extractedFn(f *ssa.Function) bool {
+	if f == nil || f.Pkg == nil || len(f.Blocks) == 0 || f.Parent() != nil || f.Synthetic != "" || len(g.recordedFuncs) == 0 {
+		return false
+	}
+	if v, ok := g.extractedMemo[f]; ok {
+		return v
+	}
+	ok := g.recordedPkgs[f.Pkg.Pkg.Path()] && !g.recordedFuncs[f.String()] && g.contractFor(f) == nil
+	if ok {
+		n := 0
+		for _, b := range f.Blocks {
+			for _, ins := range b.Instrs {
+				n++
+				switch ins.(type) {
+				case *ssa.Go, *ssa.Defer, *ssa.Select, *ssa.RunDefers:
+					ok = false
+				}
+			}
+		}
+		if n > 600 {
+			ok = false
+		}
+		if _, err := findLoops(f); err != nil {
+			ok = false
+		}
+	}
+	if g.extractedMemo == nil {
+		g.extractedMemo = map[*ssa.Function]bool{}
+	}
+	g.extractedMemo[f] = ok
 	return ok
 }
 
